@@ -676,6 +676,62 @@ func identityAccepted(o *Obs) bool {
 	return ok && !strings.ContainsAny(n, "<\n\r") && specEmailRe.MatchString(e)
 }
 
+// ---- the observation channels every property relies on ----
+
+// orReaders: the read-only commands the properties are observed through must be faithful and must not change
+// anything: `ls-files [-s]` prints the staging area as stored, `rev-parse HEAD|<branch>` the stored commit id,
+// and status / log / reflog / ls-files / rev-parse / cat-file / hash-object / branch --list leave every file alone.
+func orReaders(t *Trans) []Viol {
+	if len(t.Args) == 0 || !t.Pre.Inited {
+		return nil
+	}
+	var vs []Viol
+	a := t.Args
+	readOnly := false
+	switch a[0] {
+	case "status", "log", "reflog", "ls-files", "rev-parse", "cat-file", "hash-object":
+		readOnly = true
+	case "branch":
+		readOnly = len(a) == 1 || (len(a) == 2 && (a[1] == "--list" || a[1] == "-l"))
+	}
+	if readOnly && (t.Res.Class == "ok" || t.Res.Class == "error") {
+		if d, ok := stateEqual(t.Pre, t.Post); !ok {
+			vs = append(vs, Viol{Clause: "observe.read-only", Detail: "a read-only command changed the repository: " + d})
+		}
+	}
+	switch {
+	case a[0] == "ls-files" && t.Pre.IndexOK && t.Res.Class == "ok" && (len(a) == 1 || (len(a) == 2 && (a[1] == "-s" || a[1] == "--staged"))):
+		var want []string
+		for _, e := range t.Pre.Index {
+			if len(a) == 2 {
+				want = append(want, hx(e.id)+"    "+string(e.path))
+			} else {
+				want = append(want, string(e.path))
+			}
+		}
+		if got := strings.TrimSuffix(t.Res.Stdout, "\n"); got != strings.Join(want, "\n") {
+			vs = append(vs, Viol{Clause: "observe.ls-files", Detail: fmt.Sprintf("%s does not print the staging area as stored (%d entries)", strings.Join(a, " "), len(want))})
+		}
+	case a[0] == "rev-parse" && len(a) == 2 && configLoads(t.Pre.CfgLocal) && configLoads(t.Pre.CfgGlobal):
+		cur, ok := t.Pre.headBranch()
+		if !ok {
+			return vs
+		}
+		var want []byte
+		if a[1] == "HEAD" {
+			want = t.Pre.Branches[cur]
+		} else {
+			want = t.Pre.Branches[a[1]]
+		}
+		if want != nil && (t.Res.Class != "ok" || strings.TrimSpace(t.Res.Stdout) != string(want)) {
+			if x, isCommit := t.Pre.Objects[string(want)]; isCommit && x.OK && x.Kind == "commit" {
+				vs = append(vs, Viol{Clause: "observe.rev-parse", Detail: fmt.Sprintf("rev-parse %q printed %q, stored %q", a[1], strings.TrimSpace(t.Res.Stdout), want)})
+			}
+		}
+	}
+	return vs
+}
+
 // ---- C01 (command level) ----
 
 // orC01: `hash-object` prints the SHA-1 of 'blob <len>\0<bytes>'; `add` stores a blob with exactly the file's
